@@ -152,6 +152,16 @@ var c08ShapeTSIG int
 func init() {
 	c08ShapeTSIG = len(c08Shapes)
 	c08Shapes = append(c08Shapes, c08Shape{Name: "an+tsig", Fill: []int{c08SecAn}, TSIG: true})
+
+	// Responses that reach the write path with TC already set (e.g. a
+	// truncated upstream reply relayed as is) and whose bulk is NOT in the
+	// answer section: clearing the answers alone does not make them fit.
+	c08Shapes = append(c08Shapes,
+		c08Shape{Name: "ns+ex+tc-preset", Fill: []int{c08SecNs, c08SecEx}, TC: true},
+		c08Shape{Name: "an+ns+ex+tc-preset", Fill: []int{c08SecAn, c08SecNs, c08SecEx}, TC: true},
+		c08Shape{Name: "ns+tc-preset+opt", Fill: []int{c08SecNs}, TC: true, OPT: "clean"},
+		c08Shape{Name: "an1+ex+tc-preset+opt-stale", Fill: []int{c08SecEx}, OneAnswer: true, TC: true, OPT: "stale"},
+	)
 }
 
 // c08Filler returns the i-th filler record for section sec.
